@@ -67,6 +67,7 @@ var All = []Prog{
 	{Name: "sleep-advances-now", Run: sleepNow, Expect: []string{"true"}, Timed: true},
 	{Name: "ticker", Run: ticker, Expect: []string{"2"}, Timed: true},
 	{Name: "handoff-vs-timeout", Run: handoffTimeout, Expect: []string{"got/sent", "timeout/nosend"}, Timed: true},
+	{Name: "chan-range-len-cap", Run: chanRangeLen, Expect: []string{"2/3:6"}},
 	{Name: "map-iteration-order", Run: mapOrder, Expect: []string{"abc", "acb", "bac", "bca", "cab", "cba"}},
 	{Name: "timeout-then-late-sender", Run: lateSender, Expect: []string{"timeout/nosend"}, Timed: true},
 }
@@ -669,4 +670,22 @@ func mapOrder() string {
 		out += k
 	}
 	return out
+}
+
+// Ranging over a channel ends when it is closed and drained; len and cap see the buffer.
+func chanRangeLen() string {
+	ch := make(chan int, 3)
+	ch <- 1
+	ch <- 2
+	s := fmt.Sprintf("%d/%d:", len(ch), cap(ch))
+	go func() {
+		Jitter()
+		ch <- 3
+		close(ch)
+	}()
+	sum := 0
+	for v := range ch {
+		sum += v
+	}
+	return s + fmt.Sprint(sum)
 }
